@@ -295,6 +295,9 @@ func runC10(c *Checker) {
 	// ---- type dispatch
 	c.checkStateDispatch(proc)
 
+	// ---- duplicate detection over the received ring
+	c.runStateDuplicates()
+
 	// ---- the received ring: received is made once with a constant length K
 	// and never reassigned; receivedHead stays in [0, K-1] (zero value at
 	// creation; every store keeps the range, assuming it held before)
